@@ -271,9 +271,10 @@ impl OpSource for RandomSource {
                         Some(MH::File { node, .. }) => m.nodes[*node].content.len() as u64,
                         _ => 0,
                     };
-                    match self.rng.below(3) {
+                    match self.rng.below(4) {
                         0 => Op::Seek { h, whence: 0, off: self.rng.below(size + 10) as i64 },
                         1 => Op::Close { h },
+                        3 => Op::Extents { h },
                         _ => Op::Read { h, len: self.len_choice(cs) },
                     }
                 }
@@ -348,7 +349,7 @@ impl OpSource for RandomSource {
                     _ => (0, 0),
                 };
                 let size = m.nodes[node].content.len() as u64;
-                let k = self.rng.weighted(&[14, 8, 9, 4, 4, 5, if self.cfg.set_times { 2 } else { 0 }]);
+                let k = self.rng.weighted(&[14, 8, 9, 4, 4, 5, if self.cfg.set_times { 2 } else { 0 }, 1]);
                 match k {
                     0 => {
                         let mut len = self.len_choice(cs);
@@ -379,6 +380,7 @@ impl OpSource for RandomSource {
                         Some(Op::Seek { h, whence, off })
                     }
                     3 => Some(Op::Truncate { h }),
+                    7 => Some(Op::Extents { h }),
                     4 => Some(Op::Flush { h }),
                     5 => Some(Op::Close { h }),
                     _ => {
